@@ -11,6 +11,7 @@ import shutil
 import signal
 import subprocess
 import tempfile
+import threading
 import time
 
 REPO = os.environ.get("VERIF_REPO", "/repo")
@@ -41,6 +42,9 @@ def goenv():
 
 class BuildError(Exception):
     pass
+
+
+_RETRY_LOCK = threading.Lock()
 
 
 class Env:
@@ -168,6 +172,19 @@ class Env:
             rc, so, se, hung = r.returncode, r.stdout, r.stderr, False
         except subprocess.TimeoutExpired as ex:
             rc, so, se, hung = -999, ex.stdout or b"", ex.stderr or b"", True
+        if hung:
+            # a time-out next to fifteen other compilations on a loaded machine is not yet a hang: the same
+            # run is repeated one at a time with six times the limit, and only that outcome is reported
+            with _RETRY_LOCK:
+                for f in (trace, out):
+                    if f and os.path.isfile(f):
+                        os.remove(f)
+                try:
+                    r = subprocess.run(cmd, cwd=cwd or os.path.dirname(os.path.abspath(entry)), env=e,
+                                       capture_output=True, timeout=max(6 * timeout, 120))
+                    rc, so, se, hung = r.returncode, r.stdout, r.stderr, False
+                except subprocess.TimeoutExpired as ex:
+                    rc, so, se, hung = -999, ex.stdout or b"", ex.stderr or b"", True
         dt = time.time() - t0
         so = so.decode("utf-8", "replace")
         se = se.decode("utf-8", "replace")
